@@ -7,7 +7,8 @@ MANIFEST = dict(
          "operator is the regenerated StatePlacement fact (no write from the application/subscription scope to a variable of an outer scope), decided by the Lean kernel on every run "
          "(table_ok, hoisted_state_rows). Tie: for every catalogue operator, one operator VALUE is applied to two cold sources before either is subscribed, the second pipeline is subscribed first, "
          "then the first three times sequentially and four times concurrently; every trace must equal the model's single run; laziness: no source subscribed at construction, one subscription per Subscribe. "
-         "Found and repaired: MergeMapIWithContext (index in application scope), OnErrorResumeNextWith (captured slice rewritten).",
+         "Found and repaired: MergeMapIWithContext (index in application scope), OnErrorResumeNextWith (captured slice rewritten)."
+         ' Building a pipeline does nothing: the regenerated BuildTime table (go/extract/buildtime.go; RoProps/C12.buildtime_rows) has no clock / randomness read and no mutex, once, channel, subscription, subject, derived context or atomic created outside a subscribe function, except Share* (hot by definition); kind=lateuse builds a pipeline, lets more than its duration parameter pass, and subscribes it twice.',
     technique="Lean 4 (functional model => resubscription theorems) + kernel-decided StatePlacement table regenerated from source + differential re-subscription/re-application runs",
     ref='5/C12')
 
